@@ -643,6 +643,7 @@ func (e *Engine) solveAll(want func(*Obligation) bool, quickMs, slowMs int, work
 		}
 	}
 	if len(again) > 0 && len(again) <= 4 {
+		e.conjOnly = true
 		var awg sync.WaitGroup
 		sem := make(chan struct{}, 2)
 		for _, ob := range again {
@@ -671,6 +672,7 @@ func (e *Engine) solveAll(want func(*Obligation) bool, quickMs, slowMs int, work
 			}(ob)
 		}
 		awg.Wait()
+		e.conjOnly = false
 		// instances released above
 		for _, j := range jobs {
 			for _, o2 := range j.obs {
@@ -791,6 +793,9 @@ func (e *Engine) retryOne(lines []Line, ob *Obligation, slowMs int, scratch stri
 			ob.Status, ob.Solver, ob.Secs = "discharged", "z3-new|z3 (conjuncts separately)", time.Since(t0).Seconds()
 			mu.Unlock()
 			return
+		}
+		if e.conjOnly {
+			return // second attempt: the portfolio and the model search have already been spent on this obligation
 		}
 	}
 	type result struct {
